@@ -69,6 +69,77 @@ def build(n, edges, perm, nested, stale):
     return g, graphs, nodes
 
 
+
+def nested_cycle_cases(failures):
+    """Directed: the cycle is confined to ONE nested graph while the enclosing graph and the sibling branches are acyclic
+    but out of order.  A rejected sort (ValueError) must leave every graph of the hierarchy exactly as it was.
+    Also: a capture made two or three levels down must still order the outer producer before the control-flow node."""
+    count = 0
+
+    def op(name, inputs, n_out=1, attrs=()):
+        nd = ir.Node("", "Op", inputs=list(inputs), num_outputs=n_out, name=name, attributes=list(attrs))
+        for k, o in enumerate(nd.outputs):
+            o.name = f"{name}_o{k}"
+        return nd
+
+    for n_branches in (1, 2, 3):
+        for cyclic in range(n_branches):
+            for outer_perm in ((0, 1, 2, 3), (3, 2, 1, 0), (2, 3, 0, 1)):
+                count += 1
+                x = ir.Value(name="x")
+                prep = op("prep", [x])
+                cond = op("cond", [prep.outputs[0]])
+                branches = []
+                for b in range(n_branches):
+                    a = op(f"b{b}_a", [prep.outputs[0]])
+                    c = op(f"b{b}_c", [a.outputs[0]])
+                    if b == cyclic:
+                        a.replace_input_with(0, c.outputs[0])       # a <-> c
+                    branches.append(ir.Graph([], [c.outputs[0]], nodes=[c, a], name=f"branch{b}"))     # unsorted on purpose
+                ifn = op("ifn", [cond.outputs[0]], attrs=[ir.AttrGraph(f"g{b}", g) for b, g in enumerate(branches)])
+                tail = op("tail", [ifn.outputs[0]])
+                outer_nodes = [prep, cond, ifn, tail]
+                main = ir.Graph([x], [tail.outputs[0]], nodes=[outer_nodes[i] for i in outer_perm], name="main")
+                graphs = [main] + branches
+                before = {g.name: [n.name for n in g] for g in graphs}
+                try:
+                    main.sort()
+                    failures.append(f"nested cycle in branch{cyclic} of {n_branches}: no ValueError")
+                    continue
+                except ValueError:
+                    pass
+                except Exception as e:  # noqa: BLE001
+                    failures.append(f"nested cycle: sort raised {e!r}"[:200])
+                    continue
+                after = {g.name: [n.name for n in g] for g in graphs}
+                if after != before:
+                    failures.append(f"nested cycle in branch{cyclic} of {n_branches}, outer order {outer_perm}: ValueError raised but node "
+                                    f"orders changed {before} -> {after}")
+    # deep captures: the producer `late` sits after the control-flow node; its output is used only `depth` levels down
+    for depth in (1, 2, 3):
+        count += 1
+        x = ir.Value(name="x")
+        a = op("a", [x])
+        late = op("late", [a.outputs[0]])
+        inner = op("use", [late.outputs[0]])
+        g = ir.Graph([], [inner.outputs[0]], nodes=[inner], name=f"level{depth}")
+        for d in range(depth - 1, 0, -1):
+            holder = op(f"hold{d}", [], attrs=[ir.AttrGraph("body", g)])
+            g = ir.Graph([], [holder.outputs[0]], nodes=[holder], name=f"level{d}")
+        ctl = op("ctl", [a.outputs[0]], attrs=[ir.AttrGraph("body", g)])
+        fin = op("fin", [ctl.outputs[0], late.outputs[0]])
+        main = ir.Graph([x], [fin.outputs[0]], nodes=[a, ctl, late, fin], name="main")
+        try:
+            main.sort()
+        except Exception as e:  # noqa: BLE001
+            failures.append(f"deep capture depth {depth}: sort raised {e!r}"[:200])
+            continue
+        order = [n.name for n in main]
+        if order.index("late") > order.index("ctl"):
+            failures.append(f"deep capture at depth {depth}: producer 'late' still after the control-flow node that uses it: {order}")
+    return count
+
+
 def users_ok(graphs):
     """producers located in the same graph come before every node that uses their values directly or in a nested graph."""
     problems = []
@@ -184,6 +255,10 @@ def main():
             samples.append({"nodes": n, "edges": sorted(edges), "perm": list(perm), "nested": nested, "stale_use": stale})
         if len(failures) > 30:
             break
+    extra_cases = nested_cycle_cases(failures)
+    evaluations += extra_cases
+    for i in range(extra_cases):
+        distinct.add(("directed", i))
     known = {}
     kf = os.path.join(ROOT, "known_findings.json")
     if os.path.exists(kf):
